@@ -839,7 +839,8 @@ Proof.
   destruct (version_of_key rot) as [v|]; [|discriminate]. cbn [bind].
   destruct (class_of ele cnt (fst v) (snd v)) as [[c|]|]; cbn [bind]; try discriminate.
   destruct (rot_meta_create c ks rot_id fca) as [m|] eqn:EM; [|discriminate]. cbn [bind].
-  intros H; inversion H; subst. clear H. cbn [dc_with_sig d_meta].
+  intros H; inversion H; subst. clear H.
+  unfold dc_with_sig. cbn [d_major d_minor d_socc d_uuid d_meta d_dck d_socu d_vu d_beacon d_rot d_sig].
   unfold rot_meta_create in EM. destruct (4 <? nlen ks) eqn:E4; [discriminate|].
   destruct (map_res dc_rsa_item ks) as [items|] eqn:EI; [|discriminate]. cbn [bind] in EM. inversion EM; subst m. clear EM.
   destruct (map_res_forall dc_rsa_item (fun b => length b = 32%nat) dc_rsa_item_length ks items EI) as [HF HL].
